@@ -330,7 +330,7 @@ class _LpDen(Den):
                        else f"{iname}@{self.k.redn_depth}")
             rvars[iname] = v
             env2[iname] = v
-            if self._has_array_app(lo) or self._has_array_app(hi):
+            if self.k.is_data_dependent(lo) or self.k.is_data_dependent(hi):
                 self.k.data_dependent_vars.append(v)
             bounds.append((iname, lo, hi))
         box = z3.And([z3.And(lo <= rvars[n], rvars[n] < hi)
